@@ -9,7 +9,7 @@ RULE = ("one case = one history over objects, value arrays, metadata, table meta
         "overwrite and release it, failed operations in between, and finally release every handle once; after every step the "
         "containers are dumped: any change shows as a difference from the model (whose values are immutable), any invalid access "
         "or double free is an ASan report, any block left is counted by the allocator ledger; distinct = script hash")
-TRUSTED = ["L1 model coq/*.v (immutable values: a copy cannot be affected by its source)", "ASan + the harness's allocator ledger"]
+TRUSTED = ["L2 ledger model coq/Mem.v for objects and plain value arrays (tied by allocation and live-block counts per call)", "L1 model coq/*.v (immutable values: a copy cannot be affected by its source)", "ASan + the harness's allocator ledger"]
 ASSUMES = ["borrowed value arrays / column slices outlive the slices that reference them (the documented contract)"]
 
 
@@ -90,8 +90,46 @@ def t_failed_read(rng, L, h):
     return h
 
 
+def ledger_case(cid, rng, with_failures):
+    """objects and plain value arrays under the L2 ledger model (coq/Mem.v): statuses, allocation
+    attempts and live-block counts of every call are compared with the model's"""
+    L = ["ledger"]
+    objs, vas = [], []
+    nh = [0]
+    def h():
+        nh[0] += 1; return nh[0]
+    for _ in range(rng.choice([4, 8, 15, 30])):
+        k = rng.random()
+        if with_failures and rng.random() < 0.35:
+            L.append("allocfail %d" % rng.choice([0, 0, 1, 2, 3, 5, 8]))
+        if k < 0.3 or not objs:
+            ty = rng.choice(ALLTYPES); n = rng.choice([0, 1, 2, 5, 9]); o = h()
+            L.append(obj_line(o, ty, rand_array(rng, ty, n))); objs.append(o)
+        elif k < 0.45:
+            o = h(); L.append("ocopy %d %d" % (o, rng.choice(objs))); objs.append(o)
+        elif k < 0.65:
+            v = h(); L.append("va %d -2 %d" % (v, rng.choice(objs))); vas.append(v)
+        elif k < 0.8 and vas:
+            o = h(); L.append("vaget %d %d" % (o, rng.choice(vas))); objs.append(o)
+        elif k < 0.9 and len(objs) > 1:
+            o = objs.pop(rng.randrange(len(objs))); L.append("odel %d" % o)
+        elif vas:
+            v = vas.pop(rng.randrange(len(vas))); L.append("vadel %d" % v)
+        L += ["nallocs", "nlive"]
+    for o in objs: L.append("odel %d" % o)
+    for v in vas: L.append("vadel %d" % v)
+    L.append("nlive")
+    n = len(L)
+
+    def oracle(c):
+        return [] if c.val(n) == "0" else ["%s block(s) left after every object and array was destroyed once" % c.val(n)]
+    return Case(cid, L, oracle=oracle, meta={"dist": {"kind": "ledger", "failures": with_failures}})
+
+
 def cases(rng, tier):
     n = {"quick": 300, "thorough": 6000, "search": 200}[tier]
+    for i in range(n // 3):
+        yield ledger_case("l%d" % i, rng, False)
     for i in range(n):
         L = []; h = 1
         for _ in range(rng.choice([1, 2, 3])):
